@@ -8,6 +8,10 @@
      successful RMW     V_t := V_t join rel_x  (if acquire);   rel_x := rel_x join V_t (if release)
                         (a relaxed RMW leaves rel_x alone: it continues the release sequence)
      acquire load       V_t := V_t join rel_x           relaxed load / failed CAS: nothing
+   (MuModel emits no store to the mutex word: mu.c has none -- C03_mutex_word_writes; the two release stores of
+   mu_wait.c are instrumented in Model/HbMuWait.v)
+   A site gets the order of Gen/Sites.v only if the inventory agrees that it is an access of the KIND of the event the
+   model emits (CAS / load) to the mutex word; otherwise it is treated as relaxed.
 
    Views are functions thread -> epoch; a thread's own epoch advances at each of its steps. *)
 From NsyncBase Require Import CSem.
@@ -32,13 +36,55 @@ Definition fn_of_site (s : Z) : string :=
   end%string.
 Definition ord_of_site (s : Z) : nat := Z.to_nat (s mod 100).
 
-Definition order_of (s : Z) : aorder :=
-  match find (fun x => String.eqb (s_fn x) (fn_of_site s) && Nat.eqb (s_ord x) (ord_of_site s)) sites_mu_c with
-  | Some x => s_order x
+(* order requested by site number n of function fn in [sites], PROVIDED it is an access of kind k to [target];
+   a site that is missing, of another kind, or on another object gets no ordering credit *)
+Definition akind_eqb (a b : akind) : bool :=
+  match a, b with Kcas, Kcas | Kload, Kload | Kstore, Kstore => true | _, _ => false end.
+Definition order_at (sites : list site) (fn : string) (n : nat) (k : akind) (target : string) : aorder :=
+  match find (fun x => String.eqb (s_fn x) fn && Nat.eqb (s_ord x) n) sites with
+  | Some x => if akind_eqb (s_kind x) k && String.eqb (s_target x) target then s_order x else Orlx
   | None => Orlx          (* an unknown site gets no ordering credit *)
   end.
+(* MuModel's events EvCas / EvLoad are accesses to the mutex word, "word.mu" in mu.c *)
+Definition order_of (k : akind) (s : Z) : aorder := order_at sites_mu_c (fn_of_site s) (ord_of_site s) k "word.mu".
 Definition has_acq (o : aorder) : bool := match o with Oacq | Oacqrel => true | _ => false end.
 Definition has_rel (o : aorder) : bool := match o with Orel | Oacqrel => true | _ => false end.
+
+(* ---------- vocabulary for statements about the whole inventory ---------- *)
+Definition all_sites : list site :=
+  sites_common_c ++ sites_counter_c ++ sites_cv_c ++ sites_debug_c ++ sites_mu_c ++ sites_mu_wait_c ++ sites_note_c ++
+  sites_nsync_semaphore_futex_c ++ sites_once_c ++ sites_per_thread_waiter_c ++ sites_sem_wait_c ++ sites_wait_c.
+(* accesses to the word of an nsync_mu: `mu->word' (mu.c, mu_wait.c, debug.c), `pmu->word' and `cv_mu->word' (cv.c), and
+   the generic spin loop nsync_spin_test_and_set_ (w, ...) of common.c, which mu.c / mu_wait.c / debug.c apply to &mu->word
+   (and cv.c / debug.c to the condition variable's word) *)
+Definition on_mu_word (x : site) : bool :=
+  existsb (String.eqb (s_target x)) ["word.mu"; "word.pmu"; "word.cv_mu"]%string ||
+  (String.eqb (s_fn x) "nsync_spin_test_and_set_" && String.eqb (s_target x) "w").
+(* accesses to the word of an nsync_cv *)
+Definition on_cv_word (x : site) : bool := existsb (String.eqb (s_target x)) ["word.pcv"; "word.cv"]%string.
+Definition is_kind (k : akind) (x : site) : bool := akind_eqb (s_kind x) k.
+Definition site_id (x : site) : string * nat := (s_fn x, s_ord x).
+Definition id_eqb (a b : string * nat) : bool := String.eqb (fst a) (fst b) && Nat.eqb (snd a) (snd b).
+Definition id_in (l : list (string * nat)) (x : site) : bool := existsb (id_eqb (site_id x)) l.
+
+(* every write to the word of an nsync_mu, in every file of the inventory *)
+Definition mu_word_writes : list site := filter (fun x => on_mu_word x && negb (is_kind Kload x)) all_sites.
+(* writes that give up lock bits and / or the queue spinlock (in the order of [all_sites]) *)
+Definition mu_word_releasing : list (string * nat) :=
+  [("wake_waiters", 4%nat); ("emit_mu_state", 3%nat); ("mu_release_spinlock", 2%nat);
+   ("nsync_mu_unlock_slow_", 2%nat); ("nsync_mu_unlock_slow_", 3%nat); ("nsync_mu_unlock_slow_", 5%nat);
+   ("nsync_mu_unlock", 1%nat); ("nsync_mu_unlock", 3%nat); ("nsync_mu_runlock", 1%nat); ("nsync_mu_runlock", 3%nat);
+   ("mu_try_acquire_after_timeout_or_cancel", 3%nat); ("mu_try_acquire_after_timeout_or_cancel", 8%nat);
+   ("mu_try_acquire_after_timeout_or_cancel", 9%nat); ("nsync_mu_wait_with_deadline", 5%nat);
+   ("nsync_mu_unlock_without_wakeup", 1%nat); ("nsync_mu_unlock_without_wakeup", 3%nat)]%string.
+(* writes that take lock bits and / or the queue spinlock *)
+Definition mu_word_acquiring : list (string * nat) :=
+  [("nsync_spin_test_and_set_", 2%nat); ("wake_waiters", 2%nat);
+   ("nsync_mu_lock_slow_", 2%nat); ("nsync_mu_lock_slow_", 3%nat); ("nsync_mu_trylock", 1%nat); ("nsync_mu_trylock", 3%nat);
+   ("nsync_mu_lock", 1%nat); ("nsync_mu_lock", 3%nat); ("nsync_mu_rtrylock", 1%nat); ("nsync_mu_rtrylock", 3%nat);
+   ("nsync_mu_rlock", 1%nat); ("nsync_mu_rlock", 3%nat); ("nsync_mu_unlock_slow_", 3%nat);
+   ("mu_try_acquire_after_timeout_or_cancel", 2%nat); ("mu_try_acquire_after_timeout_or_cancel", 3%nat)]%string.
+Definition word_target (x : site) : bool := String.prefix "word." (s_target x).
 
 Record hb := mk_hb { views : nat -> view; rel_word : view }.
 Definition hb0 : hb := mk_hb (fun _ => vbot) vbot.
@@ -50,12 +96,12 @@ Definition hb_step (h : hb) (t : nat) (e : ev) : hb :=
   let h := set_view h t (vtick (views h t) t) in
   match e with
   | EvCas s _ _ true =>
-      let o := order_of s in
+      let o := order_of Kcas s in
       let v := if has_acq o then vjoin (views h t) (rel_word h) else views h t in
       let r := if has_rel o then vjoin (rel_word h) v else rel_word h in
       mk_hb (fun x => if Nat.eqb x t then v else views h x) r
   | EvLoad s _ =>
-      if has_acq (order_of s) then set_view h t (vjoin (views h t) (rel_word h)) else h
+      if has_acq (order_of Kload s) then set_view h t (vjoin (views h t) (rel_word h)) else h
   | _ => h
   end.
 
